@@ -141,7 +141,7 @@ func wordsOver(alpha string, maxLen int) []string {
 	return out
 }
 
-var replacements = []string{"x", `\1`, `\0`, `\2x`, "&", `[\1\0]`, ""}
+var replacements = []string{"x", `\1`, `\0`, `\2x`, "&", `[\1\0]`, "", "$1"}
 
 const orElse = "ZZ"
 
